@@ -129,11 +129,30 @@ def outcomeJson (r : Outcome (List OTok) × List Uri) : Json :=
   | .fault c => Json.mkObj [("fault", Json.str c), ("fetch", fetchJson r.2)]
   | .crash e => Json.mkObj [("crash", Json.str e), ("fetch", fetchJson r.2)]
 
+def kindOf17 (s : String) : Kind :=
+  match s with
+  | "arrayItem" => .arrayItem | "nestedMember" => .nestedMember | "xmlData" => .xmlData
+  | "anyDictLeaf" => .anyDictLeaf | "anyXml" => .anyXml | "anyHtml" => .anyHtml | _ => .unicode
+
+/-- what user code receives for the leaf `tag` of a request parsed with `kw` -/
+def deliverJson (j : Json) : Json :=
+  let kw := kwOf (jField j "kw")
+  let env := envOf (jField j "env")
+  let doc := docOf (jField j "doc")
+  match (parse F17.lib kw env doc).out with
+  | .err e => Json.mkObj [("err", Json.str (errStr e))]
+  | .ok o =>
+    let D : Decls := match doc.dtd with | some d => d.ents | none => []
+    let c : Cfg := ⟨F17.lib, kw, env, D, false, doc.size⟩
+    Json.mkObj [("ok", textJson (deliverLeaf (F17.deliver (kindOf17 (getStr j "kind"))) c
+      (contentOf (getStr j "tag").toList o)))]
+
 def step (j : Json) : Json :=
   match getStr j "op" with
   | "kwargs" =>
     kwJson (parserKwargsAtRequest F17 (protoOf (getStr j "proto")) (validatorOf (getStr j "validator")) (argsOf (jField j "args")))
   | "parse" => presultJson (parse F17.lib (kwOf (jField j "kw")) (envOf (jField j "env")) (docOf (jField j "doc")))
+  | "deliver" => deliverJson j
   | "handle" =>
     let rq := jField j "req"
     outcomeJson (createInDocument F17 (protoOf (getStr j "proto")) (trOf (getStr j "tr")) (kwOf (jField j "kw"))
